@@ -49,6 +49,7 @@ PROPERTIES = {
             ('C02-R9', cextra.rule_references_table, 'quick'),
             ('C02-R10', cextra.rule_lookahead_putback, 'quick'),
             ('C01-R6', cextra.rule_inverse_cleanup, 'quick'),  # !(..) must stop at the separator in path mode
+            ('C01-R3ii', c01.rule_fullmatch_sites, 'quick'),  # round 4: a seeded change of C02 was visible to this rule only
         ],
     },
     'C03': {
@@ -66,6 +67,7 @@ PROPERTIES = {
             ('C03-R3', c03.rule_start_typestate, 'quick'),
             ('C03-R4', c03.rule_exclusion_dotmatch, 'quick'),
             ('C03-R5', c03.rule_walker_hidden, 'quick'),
+            ('C05-R4', cglob.rule_specials_and_start, 'quick'),  # round 4: a seeded change of C03 was visible to this rule only
         ],
     },
     'C11': {
@@ -99,6 +101,8 @@ PROPERTIES = {
             ('C18-R7', cextra.rule_mypy_str_bytes, 'quick'),
             ('C20-R1', c20.rule_decoder_roles, 'quick'),  # the bytes decoder indexes a regex with one group fewer
             ('C14-R3', c14.rule_wcmatch_predicates, 'quick'),
+            ('C02-R7', c02.rule_nodir, 'quick'),  # round 4: a seeded change of C18 was visible to this rule only
+            ('C02-R5', c02.rule_globstar_predicate, 'quick'),  # round 4: a seeded change of C18 was visible to this rule only
         ],
     },
     'C19': {
@@ -128,6 +132,7 @@ PROPERTIES = {
             ('C20-R4', c20.rule_normalise_before_expand, 'quick'),
             ('C14-R1', c14.rule_wcmatch_flags, 'quick'),  # RAWCHARS must survive WcMatch's flag masking
             ('C08-R4', clists.rule_translate_compile_siblings, 'quick'),
+            ('C07-R5', clists.rule_expand_order, 'quick'),  # round 4: a seeded change of C20 was visible to this rule only
         ],
     },
     'C14': {
@@ -184,6 +189,8 @@ PROPERTIES = {
             ('C07-R7', cextra.rule_match_siblings, 'quick'),
             ('C02-R6', c02.rule_matchbase, 'quick'),
             ('C13-R3', cglob.rule_dedupe_predicate, 'quick'),
+            ('C05-R5', cglob.rule_globstar_handover, 'quick'),  # round 4: a seeded change of C04 was visible to this rule only
+            ('C02-R7', c02.rule_nodir, 'quick'),  # round 4: a seeded change of C04 was visible to this rule only
         ],
     },
     'C05': {
@@ -203,6 +210,7 @@ PROPERTIES = {
             ('C05-R6', cextra.rule_loop_fresh_lists, 'quick'),
             ('C09-R4', cextra.rule_extend_guards, 'quick'),
             ('C12-R5', cglob.rule_abs_pattern_def, 'quick'),
+            ('C06-R1', cglob.rule_link_test, 'quick'),  # round 4: a seeded change of C05 was visible to this rule only
         ],
     },
     'C06': {
@@ -223,6 +231,7 @@ PROPERTIES = {
             ('C05-R5', cglob.rule_globstar_handover, 'quick'),  # the follow rule of `***` must not leak into a later `**`
             ('C04-R9', cglob.rule_existence_gate, 'quick'),
             ('C19-R1', c19.rule_no_module_state, 'quick'),  # a symlink cache shared between calls goes stale
+            ('C07-R7', cextra.rule_match_siblings, 'quick'),  # round 4: a seeded change of C06 was visible to this rule only
         ],
     },
     'C12': {
@@ -258,6 +267,9 @@ PROPERTIES = {
             ('C04-R6', cglob.rule_exclusion_slash, 'quick'),
             ('C12-R5', cglob.rule_abs_pattern_def, 'quick'),
             ('C16-R5', cextra.rule_pathlib_norm, 'quick'),
+            ('C03-R5', c03.rule_walker_hidden, 'quick'),  # round 4: a seeded change of C13 was visible to this rule only
+            ('C06-R1', cglob.rule_link_test, 'quick'),  # round 4: a seeded change of C13 was visible to this rule only
+            ('C17-R7', cextra.rule_flag_mask_agreement, 'quick'),  # round 4: a seeded change of C13 was visible to this rule only
         ],
     },
     'C16': {
@@ -278,6 +290,8 @@ PROPERTIES = {
             ('C17-R7', cextra.rule_flag_mask_agreement, 'quick'),
             ('C12-R6', cextra.rule_same_name_forwarding, 'quick'),
             ('C02-R3', c02.rule_separator_pairing, 'quick'),
+            ('C03-R4', c03.rule_exclusion_dotmatch, 'quick'),  # round 4: a seeded change of C16 was visible to this rule only
+            ('C04-R9', cglob.rule_existence_gate, 'quick'),  # round 4: a seeded change of C16 was visible to this rule only
         ],
     },
     'C17': {
@@ -326,6 +340,7 @@ PROPERTIES = {
             ('C07-R7', cextra.rule_match_siblings, 'quick'),
             ('C12-R6', cextra.rule_same_name_forwarding, 'quick'),
             ('C02-R7', c02.rule_nodir, 'quick'),  # the NODIR exclusion must see the NEGATEALL default
+            ('C04-R3', cglob.rule_follow_rule, 'quick'),  # round 4: a seeded change of C07 was visible to this rule only
         ],
     },
     'C08': {
